@@ -358,7 +358,11 @@ def execute(plan, ctx):
             continue
         before = snap(parent)
         reads0 = clock.reads
-        nmade0 = len(made)
+        for r_ in made:
+            r_._n = 0                 # a Random kept alive across moves (e.g. one per object) starts each op at zero
+        del made[:-8]
+        made0 = list(made)
+        nmade0 = 0
         frozen = []
         where = k
         key_site = k
@@ -414,7 +418,7 @@ def execute(plan, ctx):
             raise
         except Exception as e:
             raised = e
-        ndraws = sum(r._n for r in made[nmade0:])
+        ndraws = sum(r._n for r in made)
         seeds = clock.recorded[reads0:]
         if seeds:
             if last_seed[0] is not None and seeds[0] == last_seed[0]:
